@@ -126,7 +126,8 @@ def gen_sess_case(rng, case_id):
     member = set()      # (i, g) local memberships
     port = 100
     used_ports = []
-    qs = [0, 1, 2]
+    # 77: a peer actor whose pid NUMBER equals the local pid of the session's transport actor
+    qs = [0, 1, 2, 77] if rng.random() < 0.5 else [0, 1, 2]
     for _ in range(L):
         r = rng.random()
         if r < 0.03 and nprobe > 0:
@@ -232,7 +233,7 @@ def sess_line(c):
             parts.append(f"freply {op[1]} {op[2]} {b(op[3])}")
         else:
             parts.append(" ".join(map(str, op)))
-    return f"sess {c['id']} 0,1,2 | " + " ; ".join(parts)
+    return f"sess {c['id']} 0,1,2,77 | " + " ; ".join(parts)
 
 
 def sess_model(c):
@@ -271,7 +272,7 @@ def sess_model(c):
             ops.append(f"USend {RB + op[1]} (mkMsg true {op[2]} {bl(op[3])}) {op[4]}")
         elif k == "drop":
             ops.append(f"UAbandon {op[1]}")
-    xs = bl([RB, RB + 1, RB + 2])
+    xs = bl([RB, RB + 1, RB + 2, RB + 77])
     ys = bl(list(range(c["nprobe"])) + [99])
     return f"urun 4 {xs} {ys} (init 0 0) [" + "; ".join(ops) + "]"
 
@@ -787,7 +788,9 @@ def run(chk):
     sexprs = [sess_model(c) for c in scases]
     for c, out in zip(scases, impl):
         exited = sorted({op[1] for op in c["ops"] if op[0] in ("exit", "hexit")})
-        sexprs.append(f"check_C20_sess [{'; '.join(map(str, exited))}] {out} && check_C20_sess_order {sess_inbound(c)} {out} "
+        terms = "[" + "; ".join(f"Some {RB + op[1]}" if op[0] == "fterm" else "None" for op in c["ops"]) + "]"
+        sexprs.append(f"check_C20_sess_term {terms} {out} && check_C20_sess [{'; '.join(map(str, exited))}] {out} "
+                      f"&& check_C20_sess_order {sess_inbound(c)} {out} "
                       f"&& check_C20_sess_complete {sess_inbound(c, True)} {out}")
     model = coq_eval(TAG + "s", IMPORTS, sexprs)
     for i, c in enumerate(scases):
@@ -797,7 +800,8 @@ def run(chk):
             desc = json.dumps({"kind": "sess", "harness_line": sess_line(c),
                                "clause": "every announced local actor that exited is reported with a Terminate frame; what a local actor "
                                          "handled is, per sender, a subsequence of the frames that arrived for it, in arrival order (calls included); every frame that "
-                                         "arrives for an actor that is alive (in pre_start or running) is handled, once, in order",
+                                         "arrives for an actor that is alive (in pre_start or running) is handled, once, in order; a Terminate frame about one pid "
+                                         "stops that pid's remote reference only",
                                "impl": impl[i]}, indent=1)
             chk.violation("session: an announced actor's exit was never reported (no Terminate frame), or frames from one sender "
                           "were handed to the actor out of arrival order",
